@@ -25,6 +25,7 @@
 #include "main.h"               /* bs100k */
 #include "encode.h"             /* encode() */
 #include "process.h"            /* struct process */
+#include "verif.h"
 
 /* transmit threshold */
 #define TRANSM_THRESH 2
@@ -79,6 +80,7 @@ do_collect(void)
   iblk = dequeue(coll_q);
   --work_units;
   sched_unlock();
+  VERIF_YIELD(VS_COMPUTE_BEGIN, iblk->pos.major);
 
   wblk = XMALLOC(struct work_blk);
 
@@ -144,6 +146,7 @@ do_collect_seq(void)
 
   collect_token = false;
   sched_unlock();
+  VERIF_YIELD(VS_COMPUTE_BEGIN, 0);
 
   /* Allocate an encoder with given block size and default parameters. */
   if (wblk == NULL) {
@@ -215,6 +218,7 @@ do_transmit(void)
   wblk = dequeue(trans_q);
   --out_slots;
   sched_unlock();
+  VERIF_YIELD(VS_COMPUTE_BEGIN, wblk->pos.major);
 
   /* Allocate the output buffer and transmit the block into it. */
   wblk->buffer = XNMALLOC((wblk->size + 3) / 4, uint32_t);
